@@ -443,7 +443,19 @@ structure Input where
   queries : List Text       -- oci: artifact references; blob: policy names
   history : String          -- e.g. "unvalidated", "validated", "validated,warm,edit-inplace,revalidated", "validated,copy,edit-assign"
   before : Option (List Stmt)  -- content the object was built and validated with, when it was edited afterwards
+  companion : Option (List Stmt)  -- a document of the OTHER kind the verifier is configured with as well
+  registryQueries : List Text  -- oci: well-formed digest references sent through the registry entry point notation.Verify
   deriving Repr, FromJson, ToJson
+
+def otherKind : Kind → Kind
+  | .oci => .blob
+  | .blob => .oci
+
+/-- the companion document (if any) satisfies the uniqueness rules of its kind -/
+def companionWF (i : Input) : Bool :=
+  match i.companion with
+  | none => true
+  | some d => wfDoc (otherKind i.kind) d
 
 /-- the uniqueness part of validity, of an input -/
 def WF (i : Input) : Bool := wfDoc i.kind i.stmts
@@ -459,11 +471,19 @@ structure QObs where
   independent : Bool        -- mutating the SECOND handed-out copy (other values) leaves what the first one holds untouched
   deriving DecidableEq, Repr, FromJson, ToJson
 
+/-- one reference through `notation.Verify` with the real verifier: the statement the skip check
+used and the statement the per-signature verification used -/
+structure RObs where
+  regSkip : Text            -- "stmt:<name>" | "no-applicable-policy" | "no-verifier"
+  regVerify : Text          -- the same vocabulary, or "not-reached" (skipped / refused before any signature)
+  deriving DecidableEq, Repr, FromJson, ToJson
+
 structure Obs where
   validated : Bool          -- the document's own Validate() accepts it
-  verifierAccepts : Bool    -- verifier.NewVerifierWithOptions accepts it
+  verifierAccepts : Bool    -- verifier.NewVerifierWithOptions accepts it TOGETHER WITH the companion document
   queries : List QObs       -- empty when the document was refused (no selection takes place)
   globalSel : Option QObs   -- blob: GetGlobalTrustPolicy() (viaVerify: VerifyBlob without a name); oci: none
+  registry : List RObs      -- one per registry query
   deriving DecidableEq, Repr, FromJson, ToJson
 
 def mutated : Text := "x-mutated".toList
@@ -538,19 +558,47 @@ def runQueries (F : CloneFacts) (i : Input) : List Text → State → List QObs 
     let (os, st'') := runQueries F i r st'
     (o :: os, st'')
 
+def noVerifier : Text := "no-verifier".toList
+def notReached : Text := "not-reached".toList
+
+/-- `notation.Verify`: the skip check selects with the reference as given; when it does not skip,
+every signature is verified with the SAME reference, hence under the same statement -/
+def regObs (d : List Stmt) (t : Text) : RObs :=
+  match selectOCI d t with
+  | .ok s => { regSkip := stmtTag s.name, regVerify := if s.level = "skip" then notReached else stmtTag s.name }
+  | .error _ => { regSkip := noPolicy, regVerify := notReached }
+
 /-- the experiment on a document that passed validation -/
 def runValid (F : CloneFacts) (i : Input) : Obs :=
   let (qs, st) := runQueries F i i.queries { doc := i.stmts, handles := [] }
   { validated := true, verifierAccepts := true, queries := qs
     globalSel := match i.kind with
       | .oci => none
-      | .blob => some (runQuery F i.stmts st .global false (classOf (selectGlobal i.stmts)) []).1 }
+      | .blob => some (runQuery F i.stmts st .global false (classOf (selectGlobal i.stmts)) []).1
+    registry := i.registryQueries.map (regObs i.stmts) }
 
 /-- a document that breaks a uniqueness rule is refused by `Validate` and by the verifier's
 constructor: no selection ever takes place on it -/
-def refused : Obs := { validated := false, verifierAccepts := false, queries := [], globalSel := none }
+def refused : Obs := { validated := false, verifierAccepts := false, queries := [], globalSel := none, registry := [] }
 
-def runWith (F : CloneFacts) (i : Input) : Obs := if WF i then runValid F i else refused
+/-- what goes through the verifier when the verifier could not be built -/
+def viaExp (i : Input) (x : Text) : Text := if companionWF i then x else noVerifier
+
+/-- the constructor validates EVERY configured document: with a companion that breaks a uniqueness
+rule there is no verifier (the document's own selections are unaffected) -/
+def viaFix (i : Input) (r : QObs) : QObs :=
+  { r with viaVerify := viaExp i r.viaVerify,
+           viaSkip := match i.kind with
+             | .oci => viaExp i r.viaSkip
+             | .blob => r.viaSkip }
+
+def viaFixR (i : Input) (r : RObs) : RObs := { regSkip := viaExp i r.regSkip, regVerify := viaExp i r.regVerify }
+
+def withCompanion (i : Input) (o : Obs) : Obs :=
+  { o with verifierAccepts := companionWF i, queries := o.queries.map (viaFix i),
+           globalSel := o.globalSel.map (viaFix i), registry := o.registry.map (viaFixR i) }
+
+def runWith (F : CloneFacts) (i : Input) : Obs := if WF i then withCompanion i (runValid F i) else refused
 
 def run (i : Input) : Obs := runWith currentFacts i
 
@@ -608,26 +656,32 @@ def selectionClauses (i : Input) (o : Obs) : Clauses :=
     ("refused_reference_selects_nothing",
       o.queries.all (fun r => !r.refRejected || r.selected.isNone)),
     ("verifier_applies_the_same_statement_or_refuses_with_the_no_applicable_policy_error",
-      forall₂ (fun t r => r.viaVerify == classOfExpected (expectedVia i t) &&
-        (i.kind != .oci || r.viaSkip == classOfExpected (expectedVia i t))) i.queries o.queries),
+      forall₂ (fun t r => r.viaVerify == viaExp i (classOfExpected (expectedVia i t)) &&
+        (i.kind != .oci || r.viaSkip == viaExp i (classOfExpected (expectedVia i t)))) i.queries o.queries),
     ("global_statement_is_the_single_global_one",
       match i.kind, o.globalSel with
       | .oci, g => g.isNone
       | .blob, some g => g.selected == expectedGlobal i.stmts &&
-          g.viaVerify == classOfExpected (expectedGlobal i.stmts)
+          g.viaVerify == viaExp i (classOfExpected (expectedGlobal i.stmts))
       | .blob, none => false),
     ("handed_out_statement_equals_the_original", allQ o (·.copyEqual)),
     ("mutating_a_handed_out_copy_does_not_affect_later_selections", allQ o (·.intact)),
-    ("handed_out_copies_are_independent_of_each_other", allQ o (·.independent)) ]
+    ("handed_out_copies_are_independent_of_each_other", allQ o (·.independent)),
+    ("registry_skip_check_uses_the_statement_scoped_to_the_repository",
+      i.kind != .oci ||
+      forall₂ (fun t r => r.regSkip == viaExp i (classOfExpected (expectedOCI i.stmts t))) i.registryQueries o.registry),
+    ("registry_verifies_every_signature_under_the_statement_of_the_skip_check",
+      o.registry.all (fun r => r.regVerify == notReached || r.regVerify == r.regSkip)) ]
 
 /-- the property over observables. A document that breaks a uniqueness rule must be refused by
 validation (then nothing is ever selected from it); for such a document every selection clause
 reads "expected = refused by validation", i.e. there must be no selection result at all. -/
 def clauses (i : Input) (o : Obs) : Clauses :=
   [ ("only_unique_documents_validate", WF i || (!o.validated && !o.verifierAccepts)),
-    ("verifier_is_built_only_from_a_validated_document", !o.verifierAccepts || o.validated) ] ++
+    ("verifier_is_built_only_from_a_validated_document", !o.verifierAccepts || o.validated),
+    ("verifier_requires_every_configured_document_to_validate", !o.verifierAccepts || companionWF i) ] ++
   (if WF i then selectionClauses i o
-   else (selectionClauses i o).map (fun c => (c.1, o.queries.isEmpty && o.globalSel.isNone)))
+   else (selectionClauses i o).map (fun c => (c.1, o.queries.isEmpty && o.globalSel.isNone && o.registry.isEmpty)))
 
 def Holds (i : Input) (o : Obs) : Bool := (clauses i o).holds
 
